@@ -282,10 +282,17 @@ func runC18(args []string) {
 		}
 		var pairs []pair
 		for _, a := range jwa.SignatureAlgorithms() {
-			for rep := 0; rep < 2; rep++ {
+			for rep := 0; rep < 8; rep++ {
 				ev := obj{"kind": "newkeypair", "alg": a.String()}
+				// (from the third run on: a pair generated WITHOUT a key id - what the only-key path of LoadKey is for; several
+				// runs, as attributes are set in map order)
+				kid := "kid-" + a.String()
+				if rep >= 2 {
+					kid = ""
+				}
+				ev["kid"] = kid
 				p, msg := guarded(func() {
-					priv, pub, err := jwkutil.NewKeyPair("kid-"+a.String(), a)
+					priv, pub, err := jwkutil.NewKeyPair(kid, a)
 					ev["generated"] = err == nil
 					ev["privvalid"], ev["pubvalid"] = false, false
 					if err != nil {
@@ -295,7 +302,7 @@ func runC18(args []string) {
 					uk, _ := pub.Key(0)
 					ev["privvalid"] = jwkutil.Validate(pk) == nil
 					ev["pubvalid"] = jwkutil.Validate(uk) == nil
-					if ev["privvalid"] == true && ev["pubvalid"] == true {
+					if ev["privvalid"] == true && ev["pubvalid"] == true && rep < 2 {
 						pairs = append(pairs, pair{a.String(), priv, pub})
 					}
 				})
